@@ -193,7 +193,7 @@ func c04Run(c *Ctx) {
 	// arguments that are themselves calls, evaluated left to right, bound by position
 	both(&Case{Gen: "binding-nested", Src: Lines(Fun("g", "t", " "+Print(`"g" + t`)+" "+Ret("t * 10")+" "), Fun("f", "p, q, r", " "+Print(`"f " + p + " " + q + " " + r`)+" "+Ret("p - q - r")+" "), Print("f(g(1), g(2), g(3))"), Print("f(g(4), f(g(5), 0, 0), g(6))"))})
 	// 3. fresh activations
-	for _, src := range c04Handwritten() {
+	for _, src := range append(c04Handwritten(), c04DeepScopes()...) {
 		both(&Case{Gen: "activations-closures", Src: src})
 	}
 	// 4. closures: every interleaving of calls over sibling closures
@@ -337,8 +337,33 @@ func c04Run(c *Ctx) {
 	}
 }
 
+// c04DeepScopes: closures made in every round of a loop, counters and a recursive helper, all k blocks deep inside
+// a function nested in a function (scope chains of 5 to 14 links; every closure keeps its own round's bindings).
+func c04DeepScopes() []string {
+	var out []string
+	for k := 0; k <= 9; k++ {
+		open, shut := strings.Repeat("{ ", k), strings.Repeat(" }", k)
+		if k%2 == 1 {
+			open, shut = strings.Repeat(If(True(), "{ "), k), strings.Repeat(" }", k)
+		}
+		out = append(out,
+			Lines(Fun("outer", "", " "+Var("hs", "[]")+" "+Fun("inner", "base", " "+open+Var("i", "0")+" "+While("i < 3", "{ "+Var("mine", "base + i")+" "+Fun("h", "", " "+Ret("mine")+" ")+" hs = "+BI("append", "hs", "h")+"; i = i + 1; }")+shut+" ")+" inner(100); "+Ret("hs")+" "),
+				Var("got", "outer()"), Print("got[0]()"), Print("got[1]()"), Print("got[2]()"), Print("got[0]() + got[2]()")),
+			Lines(Fun("outer", "", " "+Var("cs", "[]")+" "+Fun("inner", "", " "+open+For(Var("r", "0"), "r < 3", "r = r + 1", "{ "+Var("n", "r * 10")+" "+Fun("inc", "", " n = n + 1; "+Ret("n")+" ")+" cs = "+BI("append", "cs", "inc")+"; }")+shut+" ")+" inner(); "+Ret("cs")+" "),
+				Var("cs", "outer()"), Print("cs[0]()"), Print("cs[0]()"), Print("cs[1]()"), Print("cs[2]()"), Print("cs[0]()")),
+			Lines(Fun("outer", "n", " "+Fun("mid", "m", " "+open+Fun("sum", "q", " { "+If("q == 0", "{ "+Ret("0")+" }")+" } "+Ret("q + sum(q - 1)")+" ")+" "+Ret("sum(m)")+shut+" ")+" "+Ret("mid(n)")+" "), Print("outer(4)"), Print("outer(10)")))
+	}
+	return out
+}
+
 func c04Handwritten() []string {
 	return []string{
+		// closures that end by calling a sibling instance of themselves (same declaration, different captured state)
+		Lines(Fun("mk", "tag, bonus", " "+Var("peer", "nil")+" "+Fun("setPeer", "p", " peer = p; ")+" "+Fun("hit", "n", " "+If("n > 2", "{ "+Ret(`tag + ":" + (n + bonus)`)+" }")+" "+Ret("peer(n + 1)")+" ")+" "+Ret("{hit: hit, setPeer: setPeer}")+" "),
+			Var("a", `mk("a", 10)`), Var("b", `mk("b", 20)`), "a.setPeer(b.hit);", "b.setPeer(a.hit);", Print("a.hit(0)"), Print("b.hit(0)"), Print("a.hit(2)"), Print("a.hit(3)")),
+		Lines(Fun("node", "name, depth, next", " "+Fun("visit", "acc", " "+If("next == nil", "{ "+Ret(`name + "@" + (acc + depth)`)+" }")+" "+Ret("next(acc + depth)")+" ")+" "+Ret("visit")+" "), Var("leaf", `node("leaf", 2, nil)`), Var("mid", `node("mid", 3, leaf)`), Var("root", `node("root", 4, mid)`), Print("root(0)"), Print("mid(1)"), Print("leaf(5)")),
+		Lines(Fun("acct", "nm", " "+Var("calls", "0")+" "+Var("peer", "nil")+" "+Fun("link", "p", " peer = p; ")+" "+Fun("pass", "n", " calls = calls + 1; "+If("n == 0", "{ "+Ret("nm")+" }")+" "+Ret("peer(n - 1)")+" ")+" "+Fun("count", "", " "+Ret("calls")+" ")+" "+Ret("{pass: pass, link: link, count: count}")+" "),
+			Var("x", `acct("x")`), Var("y", `acct("y")`), "x.link(y.pass);", "y.link(x.pass);", Print("x.pass(5)"), Print("x.count()"), Print("y.count()")),
 		// factorial, fibonacci, mutual recursion, deep recursion
 		Lines(Fun("fact", "n", " "+If("n <= 1", Ret("1"))+" "+Ret("n * fact(n - 1)")+" "), Print("fact(10)"), Print("fact(20)")),
 		Lines(Fun("fib", "n", " "+If("n < 2", Ret("n"))+" "+Ret("fib(n - 1) + fib(n - 2)")+" "), Print("fib(15)")),
